@@ -17,33 +17,40 @@ fn big_mod<F: PrimeField>() -> BigUint {
     BigUint::from_bytes_le(&F::MODULUS.to_bytes_le())
 }
 
-/// constants parsed from the source text
-#[derive(Debug, Clone)]
+/// constants parsed from the source text; a constant is only taken when its declaration is
+/// literally `… = MontFp!("<decimal>");` (or `#[modulus = "<decimal>"]`) — any other spelling
+/// is left uncompared rather than guessed at
+#[derive(Debug, Clone, Default)]
 struct Parsed {
-    q: BigUint,
-    a: BigUint,
-    b: BigUint,
-    gx: BigUint,
-    gy: BigUint,
+    q: Option<BigUint>,
+    a: Option<BigUint>,
+    b: Option<BigUint>,
+    gx: Option<BigUint>,
+    gy: Option<BigUint>,
 }
 
-fn parse_source() -> Option<Parsed> {
-    let fq = std::fs::read_to_string(format!("{}/src/curve/zorro/fq.rs", crate::paths::repo_root())).ok()?;
-    let g1 = std::fs::read_to_string(format!("{}/src/curve/zorro/g1.rs", crate::paths::repo_root())).ok()?;
-    let num_after = |text: &str, key: &str| -> Option<BigUint> {
+fn parse_source() -> Parsed {
+    let fq = std::fs::read_to_string(format!("{}/src/curve/zorro/fq.rs", crate::paths::repo_root())).unwrap_or_default();
+    let g1 = std::fs::read_to_string(format!("{}/src/curve/zorro/g1.rs", crate::paths::repo_root())).unwrap_or_default();
+    let decl = |text: &str, key: &str, open: &str, close: &str| -> Option<BigUint> {
         let i = text.find(key)? + key.len();
         let rest = &text[i..];
-        let s = rest.find('"')? + 1;
-        let e = s + rest[s..].find('"')?;
-        rest[s..e].parse::<BigUint>().ok()
+        let end = rest.find(close)?;
+        let stmt: String = rest[..end].chars().filter(|c| !c.is_whitespace()).collect();
+        let body = stmt.strip_prefix(open)?;
+        let digits = body.strip_suffix('"')?;
+        if digits.is_empty() || !digits.bytes().all(|b| b.is_ascii_digit()) {
+            return None;
+        }
+        digits.parse::<BigUint>().ok()
     };
-    Some(Parsed {
-        q: num_after(&fq, "#[modulus")?,
-        a: num_after(&g1, "const COEFF_A: Fq")?,
-        b: num_after(&g1, "const COEFF_B: Fq")?,
-        gx: num_after(&g1, "pub const G_GENERATOR_X: Fq")?,
-        gy: num_after(&g1, "pub const G_GENERATOR_Y: Fq")?,
-    })
+    Parsed {
+        q: decl(&fq, "#[modulus", "=\"", "]"),
+        a: decl(&g1, "const COEFF_A: Fq", "=MontFp!(\"", ");"),
+        b: decl(&g1, "const COEFF_B: Fq", "=MontFp!(\"", ");"),
+        gx: decl(&g1, "pub const G_GENERATOR_X: Fq", "=MontFp!(\"", ");"),
+        gy: decl(&g1, "pub const G_GENERATOR_Y: Fq", "=MontFp!(\"", ");"),
+    }
 }
 
 /// Miller–Rabin with the given bases
@@ -130,13 +137,22 @@ fn static_checks(col: &mut Collector, n_bases: usize) -> Vec<Failure> {
     let b = big(&<Parameters as SWCurveConfig>::COEFF_B);
     let g = <Parameters as SWCurveConfig>::GENERATOR;
     let (gx, gy) = (big(&g.x), big(&g.y));
-    match parse_source() {
-        None => col.note("zorro source constants could not be parsed: source/compiled comparison not evaluated"),
-        Some(p) => {
-            col.eval();
-            if p.q != q || p.a != a || p.b != b || p.gx != gx || p.gy != gy {
-                fail("source-vs-compiled", format!("constants parsed from the source differ from the compiled ones: {:?}", p));
+    {
+        let p = parse_source();
+        let mut compared = 0;
+        for (name, src, comp) in [("q", &p.q, &q), ("a", &p.a, &a), ("b", &p.b, &b), ("generator x", &p.gx, &gx), ("generator y", &p.gy, &gy)] {
+            match src {
+                None => col.note(&format!("zorro source constant {} is not a plain literal: source/compiled comparison not evaluated", name)),
+                Some(v) => {
+                    col.eval();
+                    compared += 1;
+                    if v != comp {
+                        fail("source-vs-compiled", format!("the literal {} written in the source ({}) differs from the compiled constant ({})", name, v, comp));
+                    }
+                }
             }
+        }
+        if compared > 0 {
             col.class("source-constants-compared");
         }
     }
